@@ -29,6 +29,31 @@ from harness.core import import_cuqi, quiet, q, qv, close, vclose
 
 CACHE_ATTRS = ("current_target_logd", "current_likelihood_logd")
 
+# largest observed deviation / allowed deviation of every tolerance-based comparison that PASSED (1.0 = at the tolerance);
+# written to the evidence as `c09_margins` so that a comparison passing with little margin is visible
+MARGIN = {}
+
+
+def margin(name, dev, allowed):
+    if allowed > 0 and math.isfinite(dev):
+        r = dev / allowed
+        m = MARGIN.setdefault(name, {"max_ratio": 0.0, "n": 0})
+        m["n"] += 1
+        if r <= 1.0 and r > m["max_ratio"]:
+            m["max_ratio"] = r
+
+
+def close_m(name, a, b, tol):
+    """`close` of harness.core, recording the margin of passing comparisons"""
+    ok = close(a, b, tol)
+    try:
+        a_, b_ = float(a), float(b)
+        if ok and math.isfinite(a_) and math.isfinite(b_):
+            margin(name, abs(a_ - b_), tol * (1.0 + max(abs(a_), abs(b_))))
+    except Exception:
+        pass
+    return ok
+
 
 # ----------------------------------------------------------------------------- formatting
 def vec(v):
@@ -183,7 +208,7 @@ def nt_pending(ctx, K, desc, attr_obs, stats):
                         dis(a, f"reset to {NUTS_RESET[a]}", v, "an attribute of NUTS that reinitialize()/_pre_warmup() should reset carries something else"); return
                     if a == "_epsilon" and step_size is not None and v != snap_attr(step_size):
                         dis(a, "step_size", v, "NUTS._epsilon is not reset to the configured step_size"); return
-                    if a == "_mu" and mu is not None and not close(mu[0], mu[1], 1e-12):
+                    if a == "_mu" and mu is not None and not close_m("nuts_mu(1e-12)", mu[0], mu[1], 1e-12):
                         dis(a, mu[0], mu[1], "NUTS._mu is not log(10 * _epsilon) of the re-found step size"); return
                 if org == "dflt" and v == prev.get(a) and v != dflt_depth:
                     stats["nuts_max_depth_kept"] = stats.get("nuts_max_depth_kept", 0) + 1
@@ -223,6 +248,8 @@ def tv_compare(ctx, K, desc, outs, reals, n, tol, mag, stats, had_target_failure
     stats["value_ties"] = stats.get("value_ties", 0) + 1
     slack = lambda a, b: tol * (1.0 + max(abs(a), abs(b))) + 1e-11 * mag
     dm, dr = vals[0] - vals[1], reals[0] - reals[1]
+    margin("value_tie_difference(tol=%g)" % tol, abs(dm - dr), slack(dm, dr))
+    margin("value_tie_absolute(tol=%g)" % tol, abs(vals[0] - reals[0]), slack(vals[0], reals[0]))
     if abs(dm - dr) > slack(dm, dr):
         ctx.disagree(f"{K}:target" + ("" if had_target_failure() else ":value"), dict(desc, block=n), {"logd": vals, "difference": dm}, {"logd": reals, "difference": dr},
                      "the handed object's log-density (difference between two probe points) is not the model's joint evaluation on the recorded leaf log-densities")
@@ -683,7 +710,9 @@ def same_conditional(target, post, others, name, point, scale=None, tol=1e-8):
         return True, a, b
     # rounding of the individual log-densities (cancellation when they are huge) is allowed for
     mag = max(abs(t1), abs(t2), abs(f1), abs(f2))
-    return abs(a - b) <= tol * (1.0 + max(abs(a), abs(b))) + 1e-11 * mag, a, b
+    allowed = tol * (1.0 + max(abs(a), abs(b))) + 1e-11 * mag
+    margin("target_oracle(tol=%g)" % tol, abs(a - b), allowed)
+    return abs(a - b) <= allowed, a, b
 
 
 def tlogd(target, x):
@@ -930,7 +959,7 @@ def run_hybrid(ctx, cuqi, idx, rs, thorough, stats):
                 try:
                     fresh = cache_fresh(s, attr, before)
                     stats["cache_checks"] = stats.get("cache_checks", 0) + 1
-                    if not close(cval, fresh, 1e-8):
+                    if not close_m("cache_oracle(1e-8):" + ("nuts" if isinstance(s, NUTS) else ("state-restored" if attr in s._STATE_KEYS else "recomputed")), cval, fresh, 1e-8):
                         stats["cache_stale"] = stats.get("cache_stale", 0) + 1
                         path = "nuts" if isinstance(s, NUTS) else ("state-restored" if attr in s._STATE_KEYS else "recomputed")
                         fail(f"cache:{path}", cls, fresh, cval,
@@ -1251,7 +1280,7 @@ def compare_hybrid(ctx, K, desc, out, events, draws, snapshots, par_names, post,
                 stats["probe_errors"] = stats.get("probe_errors", 0) + 1
                 continue
             stats["cache_tag_checks"] = stats.get("cache_tag_checks", 0) + 1
-            if not close(cval, want, state.get('ftol', 1e-8)):
+            if not close_m("cache_tag_tie(tol=%g)" % state.get('ftol', 1e-8), cval, want, state.get('ftol', 1e-8)):
                 # is the implementation's cache simply fresh (defect repaired)?  then the property holds here
                 fresh_t = f"{f[2]}@{f[3]}"
                 try:
@@ -2075,6 +2104,7 @@ def corpus_scalar_initial_point(ctx, cuqi):
 # ----------------------------------------------------------------------------- entry
 def run(ctx):
     cuqi = import_cuqi()
+    MARGIN.clear()
     thorough = ctx.tier == "thorough"
     n_h = 60 if not thorough else 60 * min(ctx.scale * 2, 25)
     n_l = 40 if not thorough else 40 * min(ctx.scale * 2, 25)
@@ -2125,3 +2155,4 @@ def run(ctx):
     for (l, cb), out in zip(pending, outs):
         cb(out)
     ctx.extra_cov["c09_stats"] = stats
+    ctx.extra_cov["c09_margins"] = {k: {"max_observed_deviation_over_tolerance": float("%.3g" % v["max_ratio"]), "comparisons": v["n"]} for k, v in sorted(MARGIN.items())}
